@@ -375,6 +375,9 @@ class SimFile:
             part = text[: len(text) // 2]
             self.fs.files[self.path] = self.fs.files.get(self.path, "") + part
             self.fs._rec("write-fail", self.path, len(part), fault.err)
+            if fault.err < 0:
+                # the process is interrupted inside the write (KeyboardInterrupt-like): not an OSError
+                raise SimCrash(f"crash inside write call {self.nwrites - 1} of {self.path}")
             raise OSError(fault.err, "simulated write error", self.path)
         self.fs.files[self.path] = self.fs.files.get(self.path, "") + text
         self.fs._rec("write", self.path, len(text))
